@@ -48,19 +48,23 @@ impl<F: fmt::Debug + Read + Seek + SetLen> FileWithInlineMeta<F> {
         let mut skipping_over_corrupted_data = false;
         let mut needed_overlap = 0;
         let mut meta_ts = seek.first_full_ts;
-        let mut read_size = 0;
+        // number of bytes in buf that held data during the previous iteration
+        let mut filled = 0;
 
         while to_read > 0 {
-            // move needed overlap to start of next read
-            let overlap = (read_size - needed_overlap)..read_size;
+            // move needed overlap (the tail of what was in the buffer,
+            // previous overlap included) to start of next read
+            let overlap = (filled - needed_overlap)..filled;
             buf.copy_within(overlap, 0);
 
-            read_size = chunk_size.min(usize::try_from(to_read).unwrap_or(usize::MAX));
+            let read_size =
+                chunk_size.min(usize::try_from(to_read).unwrap_or(usize::MAX));
             to_read -= read_size as u64;
             self.file_handle
                 .read_exact(&mut buf[needed_overlap..needed_overlap + read_size])?;
-            let mut lines = buf[..needed_overlap + read_size]
-                .chunks_exact(self.payload_size.line_size());
+            filled = needed_overlap + read_size;
+            let mut lines =
+                buf[..filled].chunks_exact(self.payload_size.line_size());
 
             needed_overlap = loop {
                 let Some(line) = lines.next() else {
